@@ -92,6 +92,9 @@ func lsPath(v ssa.Value, d int) string {
 
 func lsIsFresh(path string) bool { return strings.HasPrefix(path, "new@") }
 
+// AccessPath canonicalises a value as parameter-rooted field path ("this.walletData.Scrypt").
+func AccessPath(v ssa.Value) string { return lsPath(v, 0) }
+
 type lsLockOp struct {
 	call     ssa.CallInstruction
 	lock     string // path of the mutex
